@@ -74,6 +74,8 @@ type c45Job struct {
 	Cuts     []int64  `json:"cuts"` // -1 = unlimited
 	Plan     string   `json:"plan,omitempty"` // efbig: all | sampled | witness (cuts derived from the uninterrupted save)
 	PlanSeed int64    `json:"planSeed,omitempty"`
+	// LinkTarget: when set, Path is a symbolic link to this file (outside Dir)
+	LinkTarget string `json:"linkTarget,omitempty"`
 }
 
 // planCuts derives the cut list of the efbig pass from the bytes of an
@@ -143,10 +145,31 @@ func restoreOld(job *c45Job, old []byte) error {
 	for _, e := range ents {
 		os.RemoveAll(filepath.Join(job.Dir, e.Name()))
 	}
-	if err := os.WriteFile(job.Path, old, os.FileMode(job.OldMode)); err != nil {
+	return placeOld(job, old)
+}
+
+// placeOld puts the previous configuration at the configuration path: a regular file, or a
+// symbolic link to a regular file in another directory.
+func placeOld(job *c45Job, old []byte) error {
+	file := job.Path
+	if job.LinkTarget != "" {
+		file = job.LinkTarget
+		os.Remove(job.Path)
+		os.Remove(file)
+		if err := os.MkdirAll(filepath.Dir(file), 0o755); err != nil {
+			return err
+		}
+	}
+	if err := os.WriteFile(file, old, os.FileMode(job.OldMode)); err != nil {
 		return err
 	}
-	return os.Chmod(job.Path, os.FileMode(job.OldMode))
+	if err := os.Chmod(file, os.FileMode(job.OldMode)); err != nil {
+		return err
+	}
+	if job.LinkTarget != "" {
+		return os.Symlink(job.LinkTarget, job.Path)
+	}
+	return nil
 }
 
 func setFsizeSoft(n int64) error {
@@ -479,10 +502,13 @@ type c45Case struct {
 	// LongName: the configuration file has a 245-character name, so that no sibling file
 	// with a longer name (name + suffix) can be created next to it (ENAMETOOLONG)
 	LongName bool
+	// Symlink: the path the client was started with is a symbolic link to the file (dotfile
+	// managers, mounted secrets)
+	Symlink bool
 }
 
 func (c c45Case) doc() map[string]any {
-	return map[string]any{"name": c.Name, "savePath": c.SavePath, "oldMode": fmt.Sprintf("%o", c.OldMode), "old": c.Old, "new": c.New, "oldHasComment": c.Comment, "configFileNameHas245Characters": c.LongName}
+	return map[string]any{"name": c.Name, "savePath": c.SavePath, "oldMode": fmt.Sprintf("%o", c.OldMode), "old": c.Old, "new": c.New, "oldHasComment": c.Comment, "configFileNameHas245Characters": c.LongName, "configPathIsSymlink": c.Symlink}
 }
 
 func (c c45Case) fileName() string {
@@ -526,7 +552,7 @@ func loadImage(dir string, img []byte) (c45State, error) {
 
 func TestC45(t *testing.T) {
 	rec := ev.New(t, "C45")
-	rec.Rule("Case = (previous config, new config, save path, fault). Configs: PEM certificate (1-2 blocks), PEM key (one real ed25519 key per run, else random PEM of 3 sizes), 0..5 tunnels over http/https/tcp/unix targets with YAML-hostile option strings; old file mode 0600/0644, optionally with a hand-written comment; one case in five keeps the configuration in a file with a 245-character name, next to which no file with a longer name can be created (a save that cannot be carried out there must leave the previous file untouched - counted as a clean refusal - or be as crash-safe as any other); save paths Config.writeFile (certificate+key+tunnels change), Client.RebuildTunnels (tunnels change), Client.UpdateApex (only apex changes). The save runs in a child process (re-exec of the test binary). Fault family 1, short writes (RLIMIT_FSIZE=n): mode efbig enumerates EVERY n in 0..len(new)+2 (thorough: all cases; quick: 2 generated cases, the others take 0, 1, every YAML line boundary -1/0/+1, the end and 60 sampled n; write fails with EFBIG, process stops), mode kill takes n=0, len-1, len and sampled n (SIGXFSZ kills the process inside write). Fault family 2, crash at system-call boundaries: an uninterrupted save of the prepared child is traced once (strace attached to the child's locked thread, classes %file,%desc) to discover the file operations the save issues (openat, fchmod, write..., fsync, close, rename..., unlink..., whatever appears; only read-only calls such as stat/read/fcntl/epoll are skipped); then for every operation i the child is re-run and killed with SIGKILL on ENTERING that call (strace -e inject=<syscall>:signal=SIGKILL:when=<k>), i.e. after operations 1..i-1 completed and before operation i (thorough: every operation of every case; quick: witness + first generated case every operation, two more cases every non-write operation plus first/last write). Histories of two saves: after a boundary crash that left extra files in the directory, the client is started again IN THAT DIRECTORY and performs an uninterrupted save of a shorter configuration (previous identity, at most one tunnel); the file must then load as exactly that configuration (thorough: after every such crash point; quick: the first six and the last per case). Oracle: after the stop the config path exists and client.NewConfig loads the previous or the new config (certificate, key, tunnels); when nothing was interrupted it is the new one. Non-trivial: the fault interrupts the save (n < len(new bytes), or the process was killed at the boundary). Distinct = distinct (case, fault).")
+	rec.Rule("Case = (previous config, new config, save path, fault). Configs: PEM certificate (1-2 blocks), PEM key (one real ed25519 key per run, else random PEM of 3 sizes), 0..5 tunnels over http/https/tcp/unix targets with YAML-hostile option strings; old file mode 0600/0644, optionally with a hand-written comment; about one case in three starts the client with a path that is a symbolic link to the file in another directory; one case in five keeps the configuration in a file with a 245-character name, next to which no file with a longer name can be created (a save that cannot be carried out there must leave the previous file untouched - counted as a clean refusal - or be as crash-safe as any other); save paths Config.writeFile (certificate+key+tunnels change), Client.RebuildTunnels (tunnels change), Client.UpdateApex (only apex changes). The save runs in a child process (re-exec of the test binary). Fault family 1, short writes (RLIMIT_FSIZE=n): mode efbig enumerates EVERY n in 0..len(new)+2 (thorough: all cases; quick: 2 generated cases, the others take 0, 1, every YAML line boundary -1/0/+1, the end and 60 sampled n; write fails with EFBIG, process stops), mode kill takes n=0, len-1, len and sampled n (SIGXFSZ kills the process inside write). Fault family 2, crash at system-call boundaries: an uninterrupted save of the prepared child is traced once (strace attached to the child's locked thread, classes %file,%desc) to discover the file operations the save issues (openat, fchmod, write..., fsync, close, rename..., unlink..., whatever appears; only read-only calls such as stat/read/fcntl/epoll are skipped); then for every operation i the child is re-run and killed with SIGKILL on ENTERING that call (strace -e inject=<syscall>:signal=SIGKILL:when=<k>), i.e. after operations 1..i-1 completed and before operation i (thorough: every operation of every case; quick: witness + first generated case every operation, two more cases every non-write operation plus first/last write). Histories of two saves: after a boundary crash that left extra files in the directory, the client is started again IN THAT DIRECTORY and performs an uninterrupted save of a shorter configuration (previous identity, at most one tunnel); the file must then load as exactly that configuration (thorough: after every such crash point; quick: the first six and the last per case). Oracle: after the stop the config path exists and client.NewConfig loads the previous or the new config (certificate, key, tunnels); when nothing was interrupted it is the new one. Non-trivial: the fault interrupts the save (n < len(new bytes), or the process was killed at the boundary). Distinct = distinct (case, fault).")
 	rec.Assume("a process stop leaves exactly what the completed system calls put on disk (RLIMIT_FSIZE: the crossing write is shortened to the limit, the next one fails; strace injection: the call being entered is not executed); page-cache loss on power failure is not modelled", "stray temporary/backup files next to the config are allowed", "the previous file exists and loads (a first save has nothing to lose)", "the save's system calls run on the thread the child locked itself to (Go issues file calls on the calling goroutine's thread); an injection that does not fire is counted and judged as an uninterrupted save")
 	rec.Exhaustive(false)
 
@@ -558,6 +584,7 @@ func TestC45(t *testing.T) {
 		c := c45Case{Name: fmt.Sprintf("g%d", i), Old: genState(r, i == 0), OldMode: []os.FileMode{0o600, 0o644}[r.Intn(2)], Comment: r.Intn(4) == 0}
 		c.SavePath = []string{"writeFile", "rebuild", "apex", "writeFile"}[i%4]
 		c.LongName = i%5 == 3
+		c.Symlink = i%3 == 1
 		switch c.SavePath {
 		case "writeFile":
 			c.New = genState(r, false)
@@ -627,12 +654,15 @@ func TestC45(t *testing.T) {
 		}
 		oldBytes, _ := os.ReadFile(prevPath)
 		os.Remove(prevPath)
-		if err := os.WriteFile(job.Path, oldBytes, c.OldMode); err != nil {
-			broken("cannot place previous config: %v", err)
-			return
+		if c.Symlink {
+			job.LinkTarget = filepath.Join(dir, "elsewhere", "specter-client.yaml")
 		}
 		if c.Comment {
 			oldBytes = append([]byte("# specter client configuration - edited by hand\n"), oldBytes...)
+		}
+		if err := placeOld(job, oldBytes); err != nil {
+			broken("cannot place previous config: %v", err)
+			return
 		}
 		os.WriteFile(job.OldImage, oldBytes, 0o600)
 		oldLoaded, err := loadImage(dir, oldBytes)
@@ -751,6 +781,12 @@ func TestC45(t *testing.T) {
 			}
 			if killed {
 				labels = append(labels, "child:killed-by-SIGXFSZ")
+			}
+			if c.Symlink {
+				labels = append(labels, "config-path-is-symlink")
+			}
+			if c.LongName {
+				labels = append(labels, "config-name-245-characters")
 			}
 			rec.Case(nt, key, func() any {
 				return map[string]any{"case": c.Name, "save": c.SavePath, "mode": mode, "cut": cut, "newLen": L, "fileLen": res.Length, "result": labels[2]}
